@@ -69,6 +69,15 @@ def _holds(w, t):
             'instant': lambda: True, 'eternity': lambda: False}[k]()
 
 
+def stale_wakeups(probes, consequence):
+    """a wake-up executed by the loop for an activity that has ended already (probe 'stale' of harness/dsl.py; the loop
+    resumes a finished coroutine, CPython answers with RuntimeError and the simulation is torn down).  Never observed on
+    the unchanged tree (> 9 000 scenarios of all profiles)."""
+    return [('the loop executed at %r a wake-up (%s, scheduled for %r) of the activity %r which had ended already - '
+             'left behind when it was closed or aborted; %s' % (p[1], p[3] or 'plain activation', p[4], p[2], consequence), None)
+            for p in by(probes, 'stale')]
+
+
 def mon_C01(sc, trace, probes, info):
     out = []
     last = None
@@ -109,6 +118,17 @@ def mon_C01(sc, trace, probes, info):
                 if exp not in ('n/a', None):
                     out.append(('await %r started at %r by %r never resumed although the run went on to quiescence; '
                                 'expected at %r' % (w, t0, actor, exp), None))
+    # ... nor can it be torn down by the loop itself (a left-over wake-up of an ended activity) while such waits are parked
+    if env is not None and (info.get('final') or [None])[0] == 91 and type(info.get('exc')) is RuntimeError \
+            and by(probes, 'stale'):
+        for pid, (w, actor) in sorted(info.get('parked', {}).items()):
+            if pid in starts:
+                w, t0 = starts[pid][2], starts[pid][3]
+                exp = expected_resume(w, t0)
+                if exp not in ('n/a', None) and (sc.get('till') is None or exp < tv(sc['till'])):
+                    out += stale_wakeups(probes, 'the simulation was torn down by %r and await %r started at %r by %r never '
+                                         'resumed at %r' % (info['exc'], w, t0, actor, exp))
+                    break
     dos = {p[2]: p for p in by(probes, 'do')}
     for p in by(probes, 'task_start'):
         d = dos.get(p[1])
@@ -370,6 +390,11 @@ def mon_C05(sc, trace, probes, info):
             swallowed = any(q[0] == 'caught' and tf <= q[2] <= t and _has_signal_context(q[1], CoreInterrupt) for q in probes)
             if t != tf and not swallowed:
                 out.append(('scope %r ended at %r but its first child failure happened at %r' % (name, t, tf), None))
+    # "the first failure aborts ... all remaining children": an aborted child's own pending wake-up must be gone with it
+    if any(p[0] == 'task_end' and isinstance(p[3], BaseException) and not isinstance(p[3], (CoreInterrupt, GeneratorExit))
+           for p in probes):
+        out += stale_wakeups(probes, 'the abort of the remaining children was incomplete and the simulation is torn down by '
+                             'the left-over instead of going on after the scope')
     return out
 
 
@@ -676,6 +701,9 @@ def mon_C16(sc, trace, probes, info):
                 if (q[0] == 'task_start' and q[1] in tns) or (q[0] == 'log' and q[3] in [('t', tn) for tn in tns]):
                     out.append(('activity %r of %s %r ran after its caller %r had ended' % (q[1] if q[0] == 'task_start' else q[3], p[0].split('_')[0], p[1], caller), None))
                     break
+    # aborting an activity includes withdrawing what it had scheduled for itself
+    if any(p[0] in ('first_start', 'collect_start') for p in probes):
+        out += stale_wakeups(probes, 'the abort was incomplete and the simulation is torn down by the left-over')
     return out
 
 
